@@ -73,9 +73,23 @@ def obligations(symbols_src, likelihood_src):
     out.append(("x is declared positive", sym_decl("x", {"positive": True}), 0))
     for p in ("a0", "a1", "a2", "a3"):
         out.append(("parameter %s is declared real (and nothing stronger)" % p, sym_decl(p, {"real": True}), 0))
-    for k in ("a0", "a1", "a2", "x"):
-        if k in fit:
-            out.append(("the fitting-stage table binds '%s' to the module's symbol %s" % (k, k), isinstance(fit[k], ast.Name) and fit[k].id == k, 0))
+    import re
+    for tab_name, tab in (("fitting-stage", fit), ("generation-stage", gen)):
+        for k in sorted(tab):
+            if re.fullmatch(r"a\d+|x|y", k):
+                out.append(("the %s table binds '%s' to the module's symbol %s" % (tab_name, k, k), isinstance(tab[k], ast.Name) and tab[k].id == k, 0))
+    for ln, f, dump in fits[1:]:
+        for k in sorted(f):
+            if re.fullmatch(r"a\d+|x|y", k):
+                out.append(("the table of run_sympify at line %d binds '%s' to the module's symbol %s" % (ln, k, k), isinstance(f[k], ast.Name) and f[k].id == k, ln))
+    # T5: `n1, n2, .. = sympy.symbols('n1 n2 ..')`: the i-th target carries the i-th name
+    for n in st.body:
+        if isinstance(n, ast.Assign) and len(n.targets) == 1 and isinstance(n.value, ast.Call) and isinstance(n.value.func, ast.Attribute) and n.value.func.attr == "symbols" \
+                and n.value.args and isinstance(n.value.args[0], ast.Constant) and isinstance(n.value.args[0].value, str):
+            names = n.value.args[0].value.replace(",", " ").split()
+            tg = n.targets[0]
+            tnames = [e.id for e in tg.elts if isinstance(e, ast.Name)] if isinstance(tg, ast.Tuple) else ([tg.id] if isinstance(tg, ast.Name) else [])
+            out.append(("line %d: the symbols %s are bound to the names %s" % (n.lineno, names, tnames), names == tnames, n.lineno))
 
     def wraps_abs(name, nargs):
         v = defs.get(name)
